@@ -134,9 +134,10 @@ func TypeIs(t types.Type, pkgPath, name string) bool {
 // callees
 
 // CalleeName gives a canonical name for the target of a call:
-//   "(*sync.WaitGroup).Add", "sync/atomic.StoreInt32", "builtin.len",
-//   "(github.com/taskctl/taskctl/pkg/runner.Runner).Run" for interface calls,
-//   "closure" / "dynamic" otherwise.
+//
+//	"(*sync.WaitGroup).Add", "sync/atomic.StoreInt32", "builtin.len",
+//	"(github.com/taskctl/taskctl/pkg/runner.Runner).Run" for interface calls,
+//	"closure" / "dynamic" otherwise.
 func CalleeName(c *ssa.CallCommon) string {
 	if c.IsInvoke() {
 		recv := c.Value.Type()
